@@ -609,8 +609,11 @@ def dupDirWithChildren (hs : List FileRec) : Bool :=
      | none => false) &&
     !(childrenOf hs n).isEmpty
 
-/-- the size above which the harness does not run the real `sortTarHeaders` -/
-def sortSizeCap : Nat := 100000
+/-- the size above which the harness does not run the real `sortTarHeaders` and the driver does not run the
+model sort.  Go itself copes with 10^5 records, the `List Char` model of the db text does not (a re-write that
+emits 3·10^4 records of a 40-deep chain takes the compiled model more than 120 s), and both sides must
+skip the same cases, so the cap is what the model can do in about a second. -/
+def sortSizeCap : Nat := 2000
 
 /-! ## `AddInstalledPackage` / `ParseInstalled` -/
 
